@@ -255,7 +255,7 @@ def tlc_size(n):
 def tlc_sizes(x):
     """events on their way to TLC: every "size" member translated with tlc_size"""
     if isinstance(x, dict):
-        return {k: (tlc_size(v) if k == "size" else tlc_sizes(v)) for k, v in x.items()}
+        return {k: (tlc_size(v) if k in ("size", "prec") else tlc_sizes(v)) for k, v in x.items()}
     if isinstance(x, list):
         return [tlc_sizes(v) for v in x]
     return x
